@@ -115,7 +115,9 @@ class BoolTr:
 IMPURE_ATTR_PREFIX = (
     "os.getcwd", "os.getcwdb", "os.environ", "os.getenv", "os.getpid", "os.getppid", "os.listdir",
     "os.scandir", "os.walk", "os.urandom", "os.path.abspath", "os.path.realpath", "os.path.expanduser",
-    "os.path.getmtime", "os.stat", "os.uname", "os.getlogin", "sys.argv", "sys.flags", "sys.hash_info",
+    "os.path.getmtime", "os.path.getctime", "os.path.getsize", "os.path.isfile", "os.path.isdir",
+    "os.path.exists", "os.path.lexists", "os.path.islink", "os.path.samefile", "os.access", "os.readlink",
+    "os.lstat", "os.stat", "os.uname", "pathlib.", "os.getlogin", "sys.argv", "sys.flags", "sys.hash_info",
     "sys.path", "sys.platform", "sys.executable", "time.", "datetime.", "random.", "uuid.", "socket.",
     "platform.", "locale.", "glob.", "tempfile.", "getpass.", "threading.", "secrets.", "gc.",
 )
@@ -237,7 +239,17 @@ class _Scan(ast.NodeVisitor):
 
     def visit_Call(self, n: ast.Call) -> None:
         if isinstance(n.func, ast.Name) and n.func.id in IMPURE_CALLS:
-            self.add(n.func.id + "()")
+            if n.func.id == "open":
+                # writing the output is the compiler's job; READING a file is an input
+                mode = None
+                if len(n.args) >= 2 and isinstance(n.args[1], ast.Constant):
+                    mode = n.args[1].value
+                for k in n.keywords:
+                    if k.arg == "mode" and isinstance(k.value, ast.Constant):
+                        mode = k.value.value
+                self.add("open(w)" if mode in ("w", "wb") else "open(read)")
+            else:
+                self.add(n.func.id + "()")
         self.generic_visit(n)
 
     def visit_Compare(self, n: ast.Compare) -> None:
@@ -556,6 +568,96 @@ def gen_memo() -> Tuple[str, Dict[str, str]]:
         raise Broken("translator(memo): Node.is_frozen is not `return self.__frozen__`")
     skel["_ast.py:Node.__post_freeze__"] = skeleton_digest(_find(node.body, "__post_freeze__", "Node.__post_freeze__"))
 
+
+    # ---- import resolution: which directory a relative import is resolved against ---------------------
+    _psrc, parser_t = _read(f"{COMPILER}/parser.py")
+    pcls = _cls(parser_t, "Parser")
+    gcf = _find(pcls.body, "_get_child_filepath", "Parser._get_child_filepath")
+    if [a.arg for a in gcf.args.args] != ["self", "importing_path"]:
+        raise Broken("translator(memo): Parser._get_child_filepath: unexpected parameters")
+
+    def sym(e: ast.expr, env: Dict[str, str]) -> str:
+        u = ast.unparse(e)
+        if isinstance(e, ast.Name) and e.id in env:
+            return env[e.id]
+        if u == "self.current_filepath()":
+            return "FILE"
+        if u == "os.getcwd()":
+            return "CWD"
+        if isinstance(e, ast.Call) and ast.unparse(e.func) == "os.path.dirname" and len(e.args) == 1 \
+                and sym(e.args[0], env) == "FILE":
+            return "DIR_OF_FILE"
+        raise Broken("translator(memo): Parser._get_child_filepath: import resolution uses something else than the import path, "
+                     "the importing file's directory, or the cwd when a string is parsed", u)
+
+    def ret_code(e: ast.expr, env: Dict[str, str]) -> str:
+        if isinstance(e, ast.Name) and env.get(e.id) == "PATH":
+            return "0%Z"
+        if isinstance(e, ast.Call) and ast.unparse(e.func) == "os.path.join" and len(e.args) == 2 \
+                and isinstance(e.args[1], ast.Name) and env.get(e.args[1].id) == "PATH":
+            base = sym(e.args[0], env)
+            if base == "DIR_OF_FILE":
+                return "1%Z"
+            if base == "CWD":
+                return "2%Z"
+        raise Broken("translator(memo): Parser._get_child_filepath: unsupported return value", ast.unparse(e))
+
+    def cond(e: ast.expr, env: Dict[str, str]) -> str:
+        u = ast.unparse(e)
+        if u == "os.path.isabs(importing_path)":
+            return "is_abs"
+        if isinstance(e, ast.Name) and env.get(e.id) == "FILE":
+            return "parsing_a_file"
+        if isinstance(e, ast.UnaryOp) and isinstance(e.op, ast.Not):
+            return f"(negb {cond(e.operand, env)})"
+        raise Broken("translator(memo): Parser._get_child_filepath: unsupported condition "
+                     "(only isabs(importing_path) and the truth of the current file path may decide)", u)
+
+    def walk_gcf(stmts: List[ast.stmt], env: Dict[str, str]) -> str:
+        stmts = _nodoc(stmts)
+        if not stmts:
+            raise Broken("translator(memo): Parser._get_child_filepath: a path falls off the end")
+        st, rest = stmts[0], stmts[1:]
+        if isinstance(st, ast.Return) and st.value is not None:
+            return ret_code(st.value, env)
+        if isinstance(st, (ast.Assign, ast.AnnAssign)):
+            tgt = st.targets[0] if isinstance(st, ast.Assign) else st.target
+            if isinstance(tgt, ast.Name) and st.value is not None:
+                env2 = dict(env)
+                env2[tgt.id] = sym(st.value, env)
+                return walk_gcf(rest, env2)
+        if isinstance(st, ast.If):
+            return (f"(if {cond(st.test, env)} then {walk_gcf(st.body + rest, env)} "
+                    f"else {walk_gcf(st.orelse + rest, env)})")
+        raise Broken("translator(memo): Parser._get_child_filepath: unsupported statement", ast.dump(st)[:300])
+
+    out.append("(* Parser._get_child_filepath: 0 = the import path as written (absolute), 1 = relative to the directory of\n"
+               "   the importing file, 2 = relative to the working directory *)")
+    out.append("Definition import_base (is_abs parsing_a_file : bool) : Z :=\n  "
+               + walk_gcf(gcf.body, {"importing_path": "PATH"}) + ".")
+    for nm in ("p_import", "parse", "parse_child", "parse_string", "_check_parsing_file", "current_filepath",
+               "maintain_filepath", "push_filepath", "pop_filepath"):
+        skel[f"parser.py:Parser.{nm}"] = skeleton_digest(_find(pcls.body, nm, f"Parser.{nm}"))
+
+    # ---- Renderer.render: the output file is (re)written unconditionally -------------------------------
+    _rsrc, rend_t = _read(f"{COMPILER}/renderer/renderer.py")
+    rcls = _cls(rend_t, "Renderer")
+    rr = _find(rcls.body, "render", "Renderer.render")
+    got = [ast.unparse(x) for x in _nodoc(rr.body)]
+    want = ["content = self.render_string()",
+            "with open(self.out_filepath, 'w') as f:\n    f.write(content)",
+            "return self.out_filepath"]
+    if got != want:
+        raise Broken("translator(memo): Renderer.render is not [content = render_string(); open(out, 'w').write(content); "
+                     "return out_filepath]: what is left in the output directory may depend on what was there", "\n".join(got))
+    out.append("(* Renderer.render = render_string(), then open(out_filepath, \"w\").write(content): nothing of the\n"
+               "   output directory is read *)")
+    out.append("Definition render_writes_unconditionally : bool := true.")
+    for nm in ("__init__", "get_outdir_default", "get_out_filename", "render_string"):
+        skel[f"renderer/renderer.py:Renderer.{nm}"] = skeleton_digest(_find(rcls.body, nm, f"Renderer.{nm}"))
+    _r2, rinit = _read(f"{COMPILER}/renderer/__init__.py")
+    skel["renderer/__init__.py:render"] = skeleton_digest(_find(rinit.body, "render", "renderer.render"))
+
     # ---- class table and cached-method table ------------------------------------------------------------
     classes: List[Tuple[str, List[str], List[str]]] = []
     cached: List[Tuple[str, str, str, List[str]]] = []
@@ -606,6 +708,7 @@ def gen_memo() -> Tuple[str, Dict[str, str]]:
     if unknown:
         raise Broken("translator(memo): compiler files the purity scan does not classify: " + ", ".join(unknown))
     sites: List[Tuple[str, str]] = []
+    fsites: List[Tuple[str, str]] = []
     muts: List[Tuple[str, str]] = []
     for rel in all_files:
         p = os.path.join(REPO, COMPILER, rel)
@@ -618,6 +721,10 @@ def gen_memo() -> Tuple[str, Dict[str, str]]:
         sc.visit(t)
         if rel in gen_files:
             sites.extend(sc.sites)
+        else:
+            # the front end legitimately carries the source path around (messages, import resolution):
+            # everything else it reads from the process is listed
+            fsites.extend(x for x in sc.sites if x[1] != "read .filepath")
         muts.extend(sc.mut)
         if rel != "_ast.py":
             for x in ast.walk(t):
@@ -629,6 +736,8 @@ def gen_memo() -> Tuple[str, Dict[str, str]]:
                             others.append((rel + ":" + x.name, u))
     out.append("(* process-level inputs read anywhere in the generator (_ast, utils, options, renderer) *)")
     out.append(f"Definition impure_sites : list (string * string) := {_pairs(sites)}.")
+    out.append("(* process-level inputs read by the front end (parser, lexer, linter, errors, _main), source path aside *)")
+    out.append(f"Definition frontend_sites : list (string * string) := {_pairs(fsites)}.")
     out.append("(* mutable state that outlives one compilation, in the whole compiler *)")
     out.append(f"Definition mutable_globals : list (string * string) := {_pairs(muts)}.")
     out.append("(* memoising decorators used outside _ast.py *)")
